@@ -18,7 +18,16 @@ func rulesC04(c *Ctx) {
 	c04RecordInternals(c)
 	c04HalfOpenPermits(c)
 	c03OpenTable(c)
+	// "while open and its delay has not elapsed": which delay the open state gets, and when the breaker opens / closes
+	c03Transition(c)
+	c03Constructors(c)
+	c03Edges(c)
+	c03ClosedTable(c)
+	c03HalfOpenTable(c)
+	c03StateOwner(c)
 	ruleFailureResult(c)
+	c.Rule("fresh-executor")
+	c01Self(c)
 	c.Rule("base-apply")
 	tab := c.ExecTable()
 	if info := tab["circuitbreaker"]; info != nil && info.Slots["Apply"] != nil && c.fn(info.Slots["Apply"]) == "policy.(*BaseExecutor).Apply" {
@@ -42,6 +51,7 @@ func rulesC03(c *Ctx) {
 	c04HalfOpenPermits(c)
 	c.Rule("shared")
 	c12Shared(c)
+	witnessRules(c, "C03")
 }
 
 func stateConst(c *Ctx, ts *Terms, name string) *T {
